@@ -359,3 +359,70 @@ m("x6-stepfn-stride-one", "C06", VM, _CSV_ORIG, _csv(stride="1"), "?")
 m("x6-stepfn-no-align-gate", "C06", VM, _CSV_ORIG, _csv(gate=""), "?")
 m("x6-stepfn-order-2-4", "C06", VM, _CSV_ORIG, _csv(w4="2", w2="4"), "?")
 m("x6-stepfn-align-src-only", "C06", VM, _CSV_ORIG, _csv(align_dst="src"), "?")
+
+# ---------------------------------------------------------------- batch 7: the element loops of VolatileArrayRef spelt with enumerate() (accepted
+# form since refactors/C17-rf3-2), each with one defect
+_ELT_TO_ORIG = """        let mut ptr = guard.as_ptr() as *const Packed<T>;
+        let start = ptr;
+
+        for v in buf.iter_mut().take(self.len()) {
+            // SAFETY: read_volatile is safe because the pointers are range-checked when
+            // the slices are created, and they never escape the VolatileSlices.
+            // ptr::add is safe because get_array_ref() validated that
+            // size_of::<T>() * self.len() fits in an isize.
+            unsafe {
+                *v = read_volatile(ptr).0;
+                ptr = ptr.add(1);
+            }
+        }
+
+        // SAFETY: It is guaranteed that start and ptr point to the regions of the same slice.
+        unsafe { ptr.offset_from(start) as usize }"""
+def _elt_to(take="self.len()", pre="", step="copied = i + 1;", ret="copied"):
+    return f"""        let start = guard.as_ptr() as *const Packed<T>;
+        let mut copied = 0;
+
+        for (i, v) in buf.iter_mut().take({take}).enumerate() {{
+            {pre}
+            // SAFETY: test mutant scaffold
+            unsafe {{ *v = read_volatile(start.add(i)).0 }};
+            {step}
+        }}
+
+        {ret}"""
+_ELT_FROM_ORIG = """            let start = guard.as_ptr();
+            let mut ptr = start as *mut Packed<T>;
+
+            for &v in buf.iter().take(self.len()) {
+                // SAFETY: write_volatile is safe because the pointers are range-checked when
+                // the slices are created, and they never escape the VolatileSlices.
+                // ptr::add is safe because get_array_ref() validated that
+                // size_of::<T>() * self.len() fits in an isize.
+                unsafe {
+                    write_volatile(ptr, Packed::<T>(v));
+                    ptr = ptr.add(1);
+                }
+            }
+
+            self.bitmap.mark_dirty(0, ptr as usize - start as usize);"""
+def _elt_from(step="copied = i + 1;", mark="copied * size_of::<T>()", pre=""):
+    return f"""            let start = guard.as_ptr() as *mut Packed<T>;
+            let mut copied = 0;
+
+            for (i, &v) in buf.iter().take(self.len()).enumerate() {{
+                {pre}
+                // SAFETY: test mutant scaffold
+                unsafe {{ write_volatile(start.add(i), Packed::<T>(v)) }};
+                {step}
+            }}
+
+            self.bitmap.mark_dirty(0, {mark});"""
+m("x7-enum-return-index", "C04", VM, _ELT_TO_ORIG, _elt_to(step="copied = i;"), "?")
+m("x7-enum-return-buf-len", "C04", VM, _ELT_TO_ORIG, _elt_to(ret="buf.len()"), "?")
+m("x7-enum-stops-early", "C04", VM, _ELT_TO_ORIG, _elt_to(pre="if i >= 3 { break; }"), "?")
+m("x7-enum-count-skips-odd", "C04", VM, _ELT_TO_ORIG, _elt_to(step="if i % 2 == 0 { copied = i + 1; }"), "?")
+m("x7-enum-take-unbounded", "C04", VM, _ELT_TO_ORIG, _elt_to(take="usize::MAX"), "?")
+m("x7-enum-mark-index", "C05,C16", VM, _ELT_FROM_ORIG, _elt_from(step="copied = i;"), "?")
+m("x7-enum-mark-buf-len", "C05,C16", VM, _ELT_FROM_ORIG, _elt_from(mark="buf.len() * size_of::<T>()"), "?")
+m("x7-enum-mark-elements", "C05,C16", VM, _ELT_FROM_ORIG, _elt_from(mark="copied"), "?")
+m("x7-enum-mark-skipped", "C05,C16", VM, _ELT_FROM_ORIG, _elt_from(pre="if i >= 3 { break; }"), "?")
